@@ -150,12 +150,36 @@ impl MaybeString {
             Self::Binary(b) => Encoding::choose(b.as_slice(), supports_utf8),
         };
 
+        // `7bit` and `8bit` can carry neither NUL nor a CR or LF that isn't part of a CRLF
+        let output = match output {
+            Encoding::SevenBit | Encoding::EightBit if self.has_unsafe_raw_octets() => match self {
+                Self::String(s) if quoted_printable_efficient(s.as_bytes()) => {
+                    Encoding::QuotedPrintable
+                }
+                _ => Encoding::Base64,
+            },
+            output => output,
+        };
+
         match output {
             Encoding::SevenBit => ContentTransferEncoding::SevenBit,
             Encoding::EightBit => ContentTransferEncoding::EightBit,
             Encoding::QuotedPrintable => ContentTransferEncoding::QuotedPrintable,
             Encoding::Base64 => ContentTransferEncoding::Base64,
         }
+    }
+
+    /// Whether sending the content as is (after CRLF conversion for `String`s) would
+    /// put NUL, a bare CR or a bare LF on the wire
+    fn has_unsafe_raw_octets(&self) -> bool {
+        let lf_is_converted = matches!(self, Self::String(_));
+        let bytes: &[u8] = self;
+        bytes.iter().enumerate().any(|(i, &b)| match b {
+            0 => true,
+            b'\r' => bytes.get(i + 1) != Some(&b'\n'),
+            b'\n' => !lf_is_converted && (i == 0 || bytes[i - 1] != b'\r'),
+            _ => false,
+        })
     }
 
     /// Encode line endings to CRLF if the variant is `String`
@@ -246,6 +270,14 @@ impl Deref for MaybeString {
             Self::String(s) => s.as_ref(),
         }
     }
+}
+
+fn quoted_printable_efficient(b: &[u8]) -> bool {
+    let requiring_escaping = b
+        .iter()
+        .filter(|&b| !matches!(b, b'\t' | b' '..=b'~'))
+        .count();
+    requiring_escaping <= (b.len() / 3)
 }
 
 /// In place conversion to CRLF line endings
